@@ -105,10 +105,15 @@ Proof.
     [by apply nt_raise|].
   ntx; first [apply IH | apply nt_ite].
 Qed.
+Lemma nt_quantify_names u qvars fa : nt (quantify_names u qvars fa).
+Proof.
+  unfold quantify_names. apply nt_try_to_reorder.
+  ntx; [apply nt_map_to_level_set|apply nt_quantify_rec].
+Qed.
 Lemma nt_quantify u bn qvars fa : nt (quantify u bn qvars fa).
 Proof.
-  unfold quantify. apply nt_try_to_reorder.
-  ntx; [apply nt_map_to_level_set|apply nt_quantify_rec].
+  destruct bn; [apply nt_quantify_names|]. unfold quantify.
+  ntx; [apply nt_map_to_level_set|apply nt_quantify_names].
 Qed.
 Lemma nt_cofactor_rec fuel : ∀ u ord values cache, nt (cofactor_rec fuel u ord values cache).
 Proof.
@@ -116,10 +121,15 @@ Proof.
     [by apply nt_raise|].
   ntx; apply IH.
 Qed.
+Lemma nt_cofactor_names u values : nt (cofactor_names u values).
+Proof.
+  unfold cofactor_names. apply nt_try_to_reorder.
+  ntx; [apply nt_map_to_level_dict|apply nt_cofactor_rec].
+Qed.
 Lemma nt_cofactor u bn values : nt (cofactor u bn values).
 Proof.
-  unfold cofactor. apply nt_try_to_reorder.
-  ntx; [apply nt_map_to_level_dict|apply nt_cofactor_rec].
+  destruct bn; [apply nt_cofactor_names|]. unfold cofactor.
+  ntx; [apply nt_map_to_level_dict|apply nt_cofactor_names].
 Qed.
 Lemma nt_compose_rec fuel : ∀ f_ j g cache, nt (compose_rec fuel f_ j g cache).
 Proof.
@@ -462,8 +472,21 @@ Proof.
   apply bind_fst_state in H as [r0 H].
   apply (quantify_rec_total_nr s u q fa (S (S (nvars s))) r0 s'); try done. lia.
 Qed.
-Lemma csafe_quantify u bn qvars fa : csafe (quantify u bn qvars fa).
+Lemma quiet_map_key bn first k : quiet (map_key bn first k).
+Proof. unfold map_key. quiet. destruct first; by apply quiet_raise. Qed.
+Lemma quiet_map_to_level_set bn ks : quiet (map_to_level_set bn ks).
+Proof. unfold map_to_level_set. quiet; apply quiet_map_key. Qed.
+Lemma quiet_map_to_level_dict {A} bn (kv : list (nat * A)) : quiet (map_to_level_dict bn kv).
+Proof. unfold map_to_level_dict. quiet; apply quiet_map_key. Qed.
+Lemma csafe_quantify_names u qvars fa : csafe (quantify_names u qvars fa).
 Proof. apply csafe_try_to_reorder; [apply nrf_quantify_body|apply csafe_quantify_body]. Qed.
+Lemma csafe_quantify u bn qvars fa : csafe (quantify u bn qvars fa).
+Proof.
+  destruct bn; [apply csafe_quantify_names|]. unfold quantify.
+  apply csafe_bind; [apply csafe_pure, pure_map_to_level_set|intros q].
+  apply csafe_bind; [|intros names; apply csafe_quantify_names].
+  apply csafe_pure, pure_mapM. intros l. apply pure_var_at_level.
+Qed.
 
 Lemma csafe_cofactor_body u bn values :
   csafe (lv <- map_to_level_dict bn values ;; s <- get ;;
@@ -675,19 +698,35 @@ Proof.
   - ntx.
   - csafe. apply csafe_find_or_add_var.
 Qed.
-Lemma dsafe_quantify u bn qvars fa : dsafe (quantify u bn qvars fa).
+Lemma dsafe_quantify_names u qvars fa : dsafe (quantify_names u qvars fa).
 Proof.
-  unfold quantify. apply try_to_reorder_total.
+  unfold quantify_names. apply try_to_reorder_total.
   - apply nrf_quantify_body.
   - ntx; [apply nt_map_to_level_set|apply nt_quantify_rec].
   - apply csafe_quantify_body.
 Qed.
-Lemma dsafe_cofactor u bn values : dsafe (cofactor u bn values).
+Lemma dsafe_cofactor_names u values : dsafe (cofactor_names u values).
 Proof.
-  unfold cofactor. apply try_to_reorder_total.
+  unfold cofactor_names. apply try_to_reorder_total.
   - apply nrf_cofactor_body.
   - ntx; [apply nt_map_to_level_dict|apply nt_cofactor_rec].
   - apply csafe_cofactor_body.
+Qed.
+(** the public methods: the key prelude is read-only *)
+Lemma dsafe_quantify u bn qvars fa : dsafe (quantify u bn qvars fa).
+Proof.
+  destruct bn; [apply dsafe_quantify_names|]. unfold quantify.
+  apply dsafe_bind; [apply dsafe_quiet, quiet_map_to_level_set|intros q].
+  apply dsafe_bind; [|intros names; apply dsafe_quantify_names].
+  apply dsafe_quiet, quiet_mapM. intros l. apply quiet_var_at_level.
+Qed.
+Lemma dsafe_cofactor u bn values : dsafe (cofactor u bn values).
+Proof.
+  destruct bn; [apply dsafe_cofactor_names|]. unfold cofactor.
+  apply dsafe_bind; [apply dsafe_quiet, quiet_map_to_level_dict|intros lv].
+  apply dsafe_bind; [|intros nv; apply dsafe_cofactor_names].
+  apply dsafe_quiet, quiet_mapM. intros [l a].
+  apply quiet_bind; [apply quiet_var_at_level|intros v; apply quiet_ret].
 Qed.
 Lemma dsafe_compose f_ var_sub : dsafe (compose f_ var_sub).
 Proof.
